@@ -42,6 +42,8 @@ def gen_case(rng, method, tier):
             shape[2] = 3
     n = rng.choice([1, 2, 3, 5])
     conts = ["np32", "np64", "npint", "tf32", "tf64", "ds_unbatched"] + [f"ds_batch{b}" for b in sorted({1, 2, n, n + 1, max(1, n - 1)})]
+    # batch(b, drop_remainder=True) with b dividing N: a batched dataset with a STATIC batch axis holding the same values
+    conts += [f"ds_dropbatch{b}" for b in range(1, n + 1) if n % b == 0]
     chosen = ["np32"] + rng.sample(conts[1:], 3 if tier == "quick" else 5)
     return dict(method=method, kind=kind, shape=shape, n=n, containers=chosen, seed=rng.randrange(1 << 30),
                 probe_prefetch=(rng.random() < 0.15 and n in (2, 4)))
@@ -53,7 +55,8 @@ def generate(rng, tier):
 
 
 def nontrivial(case):
-    return any(c in ("np64", "npint", "tf64") or (c.startswith("ds_batch") and case["n"] % int(c[8:]) != 0) for c in case["containers"])
+    return any(c in ("np64", "npint", "tf64") or c.startswith("ds_dropbatch") or
+               (c.startswith("ds_batch") and case["n"] % int(c[8:]) != 0) for c in case["containers"])
 
 
 def distribution(cases):
@@ -88,6 +91,9 @@ def make_explainer(method, model, kind, shape):
               HsicAttributionMethod=dict(grid_size=2, nb_design=8))[method]
     if method == "Rise" and kind == "tab":
         kw = dict(nb_samples=5, grid_size=1)
+    elif method == "Rise":
+        # grids that do not fit the input size (L mod g > L // g happens for g = 3, 4 on sizes 5, 7 ...)
+        kw = dict(nb_samples=5, grid_size=[2, 3, 4][(shape[0] + shape[1]) % 3])
     return getattr(A, method)(model, batch_size=3, **kw)
 
 
@@ -108,6 +114,8 @@ def container(name, x, t):
         return ds, None
     if name == "ds_prefetch":
         return ds.batch(2).prefetch(1), None
+    if name.startswith("ds_dropbatch"):
+        return ds.batch(int(name[12:]), drop_remainder=True), None
     return ds.batch(int(name[8:])), None
 
 
@@ -202,7 +210,8 @@ def coq_term(case, res):
     if verdict(case, res) or prefetch_finding(case, res):
         return "false"
     n = case["n"]
-    bs = sorted({int(c[8:]) for c in case["containers"] if c.startswith("ds_batch")} | {1})
+    bs = sorted({int(c[8:]) for c in case["containers"] if c.startswith("ds_batch")} |
+                {int(c[12:]) for c in case["containers"] if c.startswith("ds_dropbatch")} | {1})
     xs = core.cnatlist(range(n))
     ts = core.cnatlist(range(100, 100 + n))
     parts = [f"(let '(a, b) := sanitize (batched {b} {xs} {ts}) in list_eqb Nat.eqb a {xs} && list_eqb Nat.eqb b {ts})" for b in bs]
